@@ -13,7 +13,7 @@ ENGINE = "E1"
 TECHNIQUE = "bounded exhaustive enumeration of rules x listings x all 8 mode combinations, each a separate compile-and-match on the real code, relational oracle between the 8 results"
 RULE = ("rules: a stratified subfamily covering every operator, repetition form, capture kind, $deref, the shipped @any "
         "macro and valid_addr_range (every k-th rule of the C01-C05 families plus fixed @any / valid_addr rules) x EVERY "
-        "listing of length 0..3 over a 5-instruction alphabet x the 2x2x2 combinations of return mode (bool/list), search "
+        "listing of length 0..3 over a 5-instruction alphabet, with distinct addresses and with addresses that restart at 0 (several code sections) x the 2x2x2 combinations of return mode (bool/list), search "
         "mode (first/all) and address-only flag, each combination run as its own MasterOfPuppets construction and call. "
         "Oracle (relational, real code vs real code): bool <=> list non-empty in every mode; first-list = all-list[:1]; "
         "address-only[k] = text before the first '::' of full[k]; verdict identical across the 8 runs; a second "
@@ -29,7 +29,7 @@ MODES = [(r, m, o) for r in ("bool", "list") for m in ("first", "all") for o in 
 
 
 def bounds(tier):
-    return {"L_listing_len": 3, "stride": 60 if tier == "quick" else 8}
+    return {"L_listing_len": 3, "stride": 60 if tier == "quick" else 16}
 
 
 EXTRA = [
@@ -60,7 +60,8 @@ def shards(tier):
 
 
 def build_lsets(h, tier):
-    return {"c12": e1.ListingSet(h, ALPHA, 3)}
+    # 'dup': addresses restart (objdump -d of an object file with several code sections prints every section from 0)
+    return {"c12": e1.ListingSet(h, ALPHA, 3), "dup": e1.ListingSet(h, [ALPHA[0], ALPHA[2], ALPHA[4]], 3, minlen=2, addrs=["0", "4", "0", "4"])}
 
 
 def run_case(h, doc, macros, path):
@@ -99,7 +100,8 @@ def check_modes(out):
 
 def run_shard(shard, tier, h, res, known):
     rules = all_rules(tier)
-    ls = e1.get_lsets(h, tier, build_lsets)["c12"]
+    lsets = e1.get_lsets(h, tier, build_lsets)
+    ls = list(lsets["c12"]) + list(lsets["dup"])
     h.decoy_every = 4          # 8 compilations per case: a decoy before every 4th keeps the cost in bounds
     for ri in range(shard["lo"], len(rules), shard["n"]):
         pat, macros, config = rules[ri]
@@ -118,7 +120,7 @@ def run_shard(shard, tier, h, res, known):
                 res.fail({"clause": clause, "rule": doc, "macros": macros, "listing": [[a, m, list(o)] for a, m, o in att],
                           "expected": exp, "observed": obs, "size": len(att) * 10 + len(str(pat))}, known)
         if len(res.samples) < 1:
-            res.samples.append({"rule": doc, "macros": macros, "listing": [[a, m, list(o)] for a, m, o in ls.items[-1][3]],
+            res.samples.append({"rule": doc, "macros": macros, "listing": [[a, m, list(o)] for a, m, o in ls[-1][3]],
                                 "modes": [list(m) for m in MODES]})
 
 
